@@ -7,8 +7,12 @@ Families
            model: the harness tells the driver what `bytes.decode` & co. do on this very case.
   session  the real GeminiClient.get / upload on a virtual-clock loop whose create_connection attaches a
            fake transport and a scripted server: prompt termination, timeout cut-off.
+  overlap  ONE GeminiClient with several get / upload calls in flight at once (asyncio.gather), each against its own
+           scripted server on the virtual-clock loop: every call ends with the faithful response to ITS server's
+           stream (or an error / the timeout), whatever the other calls do.
   live     the real GeminiClient against scripted loopback TLS servers (real time): faithful body,
            cap cut-off, prompt termination on close, timeout cut-off.
+  liveoverlap  the same with two or three calls in flight on one client, each against its own scripted TLS connection.
 """
 from __future__ import annotations
 
@@ -35,6 +39,7 @@ ASSUMPTIONS = [
     "parameters of the model (every theorem quantifies over all their behaviours): UTF-8 decoding of the header line, the text/* test on the meta, bytes.decode(charset) on the body (ok / UnicodeDecodeError / LookupError / any other exception); the harness evaluates them in Python per case and hands the results to the model",
     "asyncio contract used by the model: data_received is not called after transport.close(); an exception escaping data_received makes the transport call connection_lost(exc); connection_lost is called exactly once",
     "asyncio.wait_for (the timeout cut-off) is not modelled in Lean: it is checked by the virtual-clock family `session` and the real-time family `live` only",
+    "families overlap / liveoverlap: connections are attributed to the calls of a case by a context variable (virtual loop) or by the server port and the order of the TCP connects (loopback TLS; two calls to the same server start at least 0.4 s apart)",
     "reads of more than 256 KiB do not occur with real asyncio transports; the protocol-object family nevertheless delivers streams of > 10 MiB in one read (that is how the fixed segmentation defects were found)",
 ]
 LEVEL_TEXT = ("Lean 4 theorems over a hand-written model of data_received / _parse_header / connection_lost of both client protocol classes: "
@@ -621,6 +626,240 @@ class Session(Family):
 
 
 # ----------------------------------------------------------------------------
+# what the property promises for ONE call, given only what its server does (used by the families with several calls in flight)
+# ----------------------------------------------------------------------------
+def want_of(data: bytes, dt: bool):
+    """(status, meta, canonical body) of the response to the complete server stream `data`, or None when the stream has no
+    well-formed header / an undecodable text body (then only an error is acceptable)"""
+    i = data.find(CRLF)
+    if i < 0 or i > 1027:
+        return None
+    line = data[:i]
+    if len(line) < 2 or not line[:2].isdigit() or not line[:2].isascii() or not (len(line) == 2 or line[2:3] == b" "):
+        return None
+    st = int(line[:2])
+    if not 10 <= st <= 69:
+        return None
+    try:
+        meta = line[3:].decode("utf-8")
+    except UnicodeDecodeError:
+        return None
+    if not 20 <= st <= 29:
+        return st, meta, None
+    raw = data[i + 2:]
+    if is_text(meta) and dt:
+        kind, text = decode_kind(raw, declared_charset(meta))
+        if kind != 0:
+            return None
+        return st, meta, canon_body(text)
+    return st, meta, canon_body(raw)
+
+
+def judge_one(who: str, res, want, nbody: int):
+    """clauses of the property on the response of one call; `want` from want_of (the complete stream of ITS server)"""
+    if res[0] != "resp":
+        return None
+    st, meta_hex, body = res[1], res[2], res[3]
+    if not (10 <= st <= 69) or ((body is not None) != (20 <= st <= 29)):
+        return ("bad-response", f"{who}: {res}")
+    if want is None:
+        return None         # grey: a stream the protocol-object family judges (header corruptions)
+    if st != want[0]:
+        return ("status-mismatch", f"{who}: status {st}, its server sent status {want[0]}")
+    if body is not None and body != want[2]:
+        return ("body-mismatch", f"{who}: returned status {st} with body {body}, but its server sent {nbody} bytes after the first CRLF "
+                                 f"({want[2]}): the body is not the bytes the server sent")
+    return None
+
+
+# ----------------------------------------------------------------------------
+# overlap: several calls in flight at the same time on ONE GeminiClient (virtual clock, fake transports)
+# ----------------------------------------------------------------------------
+class Overlap(Family):
+    """ONE GeminiClient, several get / upload calls in flight at once (asyncio.gather - a crawler, a GUI with tabs, the reverse
+    proxy's shared client): each call has its own scripted server (stream, segmentation, pauses, close / reset / stall, connect
+    delay).  Whatever the other calls do, every call ends promptly with the faithful response to ITS server's stream or an error,
+    and is cut off at the timeout.  Connections are attributed to calls by a context variable; time is virtual."""
+    name = "overlap"
+    quick_n = 1600
+    thorough_n = 24000
+    parallel = True
+
+    TICKS = [0.0, 0.125, 0.25, 0.5]
+
+    def gen_req(self, rng: random.Random, timeout: float, start=None):
+        r = rng.random()
+        if r < 0.7:
+            # a page whose body arrives in pieces with pauses (so that another call can end in the middle of it)
+            st = rng.choice([20, 20, 20, 21, 29])
+            meta = rng.choice(["text/gemini", "text/plain; charset=utf-8", "application/octet-stream", "text/plain; charset=latin-1", "image/png", ""])
+            head = f"{st} {meta}".encode() + CRLF
+            npieces = rng.choice([1, 2, 3, 4, 6])
+            pieces = [bytes(rng.choice(b"abcdefghij \n#=>") for _ in range(rng.choice([1, 3, 17, 120, 700]))) for _ in range(npieces)]
+            data = head + b"".join(pieces)
+            cuts, pos = [], len(head) if rng.random() < 0.7 else 0
+            for pc in pieces[:-1]:
+                pos += len(pc)
+                cuts.append(pos)
+            if rng.random() < 0.3:
+                cuts.append(rng.randrange(1, len(head)))
+            cuts = sorted(set(c for c in cuts if 0 < c < len(data)))
+            stream, cls = [lit(data)], "page"
+        else:
+            stream, cls = gen_stream(rng)
+            ln = stream_len(stream)
+            cuts = sorted(rng.sample(range(1, ln), min(ln - 1, rng.randint(0, 3)))) if ln > 1 else []
+        delays = [rng.choice(self.TICKS) for _ in range(len(cuts) + 1)]
+        if rng.random() < 0.05:
+            delays[rng.randrange(len(delays))] = timeout + 1.0
+        return {"op": rng.choice(["get", "get", "get", "upload"]), "start": rng.choice([0.0, 0.0, 0.125, 0.25, 0.5, 1.0]) if start is None else start,
+                "stream": stream, "cls": cls, "cuts": cuts, "delays": delays, "end": rng.choice(["close", "close", "close", "close", "reset", "stall"]),
+                "end_delay": rng.choice([0.0, 0.0, 0.25, 1.0]), "connect_delay": rng.choice([0.0, 0.0, 0.0, 0.125, 0.5, timeout + 1.0]) if rng.random() < 0.25 else 0.0}
+
+    def gen(self, rng: random.Random, n: int):
+        def page(body_pieces, gaps, start, end="close", end_delay=0.0, op="get", meta="text/gemini", connect=0.0):
+            head = b"20 " + meta.encode() + CRLF
+            data = head + b"".join(body_pieces)
+            cuts, pos = [], len(head)
+            for pc in body_pieces[:-1]:
+                pos += len(pc)
+                cuts.append(pos)
+            return {"op": op, "start": start, "stream": [lit(data)], "cls": "page", "cuts": cuts, "delays": gaps, "end": end, "end_delay": end_delay, "connect_delay": connect}
+
+        half1, half2 = b"# slow page\n" + b"first half\n" * 20, b"second half\n" * 20 + b"the end\n"
+        fixed = [
+            # a small page that takes a while, and a long page started later that is in the middle of its body when the first call ends
+            {"timeout": 5.0, "dt": True, "reqs": [page([b"# fast page\n"], [0.25], 0.0), page([half1, half2], [0.0, 1.0], 0.125)]},
+            {"timeout": 5.0, "dt": False, "reqs": [page([half1, half2], [0.0, 1.0], 0.125, meta="application/octet-stream"), page([b"# fast page\n"], [0.25], 0.0)]},
+            {"timeout": 5.0, "dt": True, "reqs": [page([half1, half2], [0.0, 1.0], 0.0), page([b"# fast page\n"], [0.25], 0.125)]},          # the later one ends first
+            {"timeout": 2.0, "dt": True, "reqs": [page([b"a\n"], [0.5], 0.0, op="upload"), page([b"x" * 100, b"y" * 100, b"z" * 100], [0.25, 0.5, 0.5], 0.25),
+                                                  page([b"k" * 50, b"l" * 50], [0.125, 1.0], 0.5, end="reset")]},
+            {"timeout": 2.0, "dt": True, "reqs": [page([b"one\n"], [0.125], 0.0), page([b"two\n"], [0.125], 0.0), page([b"three\n"], [0.125], 0.0)]},   # all together
+            {"timeout": 2.0, "dt": True, "reqs": [page([b"part", b"rest"], [0.0, 0.5], 0.0, end="stall"), page([b"short\n"], [0.25], 0.125), page([b"p1", b"p2"], [0.125, 0.5], 0.25)]},
+            {"timeout": 2.0, "dt": True, "reqs": [page([b"late\n"], [0.125], 0.0, connect=0.5), page([b"q1", b"q2", b"q3"], [0.125, 0.25, 0.25], 0.125)]},   # connects later although started first
+            {"timeout": 5.0, "dt": True, "reqs": [page([b"alone\n"], [0.125], 0.0), page([b"after\n"], [0.125], 1.0)]},                     # one after the other
+        ]
+        cnt = 0
+        for c in self.share(fixed):
+            cnt += 1
+            yield c
+        for _ in range(max(0, n - cnt)):
+            timeout = rng.choice([2.0, 5.0, 30.0])
+            k = rng.choice([2, 2, 2, 3, 3, 4])
+            yield {"timeout": timeout, "dt": rng.random() < 0.85, "reqs": [self.gen_req(rng, timeout) for _ in range(k)]}
+
+    def impl(self, case):
+        from nauyaca.client.session import GeminiClient
+        from ..sim.client_fake import WHO, ServerScript, VLoop
+
+        loop = VLoop()
+        scripts = []
+        for j, r in enumerate(case["reqs"]):
+            chunks = split_at(build(r["stream"]), r["cuts"])
+            delays = (r["delays"] + [0.0] * len(chunks))[: len(chunks)]
+            sc = ServerScript(chunks, delays, r["end"], r["end_delay"], r["connect_delay"])
+            scripts.append(sc)
+            loop.scripts_of[j] = [sc]
+        escaped = []
+        loop.set_exception_handler(lambda lp, ctx: escaped.append(type(ctx.get("exception")).__name__) if ctx.get("exception") else None)
+        try:
+            client = GeminiClient(timeout=case["timeout"], trust_on_first_use=False, decode_text=case["dt"], ssl_context=_dummy_ctx())
+        except TypeError:      # older revisions: no decode_text
+            client = GeminiClient(timeout=case["timeout"], trust_on_first_use=False, ssl_context=_dummy_ctx())
+        results = [{"res": ["hang", "never-ends"], "t0": None, "t1": None} for _ in case["reqs"]]
+
+        async def one(j, r):
+            WHO.set(j)
+            if r["start"]:
+                await asyncio.sleep(r["start"])
+            results[j]["t0"] = loop.time()
+            try:
+                if r["op"] == "get":
+                    x = await client.get(f"gemini://example.org/r{j}", follow_redirects=False)
+                else:
+                    x = await client.upload(f"gemini://example.org/up{j}", b"abc", mime_type="text/plain", token="t")
+                res = ["resp", x.status, (x.meta or "").encode("utf-8", "surrogatepass").hex(), canon_body(x.body)]
+            except TimeoutError as e:
+                res = ["timeout", str(e).split(":")[0]]
+            except Exception as e:  # noqa: BLE001
+                res = ["err", type(e).__name__]
+            results[j]["res"] = res
+            results[j]["t1"] = loop.time()
+
+        async def go():
+            await asyncio.gather(*(one(j, r) for j, r in enumerate(case["reqs"])))
+
+        try:
+            try:
+                loop.run_until_complete(go())
+            except RuntimeError as e:
+                if "would hang forever" not in str(e):
+                    raise
+            now = loop.time()
+            for t in asyncio.all_tasks(loop):
+                t.cancel()
+            try:
+                loop.run_until_complete(asyncio.sleep(0))
+            except RuntimeError:
+                pass
+        finally:
+            loop.close()
+        for j, sc in enumerate(scripts):
+            tr = sc.transport
+            results[j].update({"t_up": sc.t_up, "t_end": sc.t_end, "delivered": sc.delivered, "closed_by_client": bool(tr and tr.close_calls),
+                               "t_close": tr.t_close if tr else None, "request_written": bool(tr and tr.writes)})
+        return {"calls": results, "now": now, "escaped": sorted(set(escaped))}
+
+    def oracle(self, case, obs):
+        T, eps = case["timeout"], 1e-6
+        n = len(case["reqs"])
+        flight = "; ".join(f"call {j + 1} {r['op']} from t={r['start']}" for j, r in enumerate(case["reqs"]))
+        for j, (r, o) in enumerate(zip(case["reqs"], obs["calls"])):
+            who = f"call {j + 1} of {n} in flight on one GeminiClient ({flight}; timeout {T})"
+            res = o["res"]
+            data = build(r["stream"])
+            nchunks = len(split_at(data, r["cuts"]))
+            span = sum((r["delays"] + [0.0] * nchunks)[:nchunks]) + r["end_delay"]          # connection up -> the server's close / reset
+            if res[0] == "hang":
+                return ("no-timeout-cutoff", f"{who}: nothing is scheduled any more at virtual time {obs['now']} and the call has not ended: it would hang forever")
+            el = o["t1"] - o["t0"]
+            if el > 2 * T + eps:
+                return ("no-timeout-cutoff", f"{who}: took {el} virtual seconds")
+            if res[0] == "timeout":
+                if r["connect_delay"] >= T - eps or r["end"] == "stall" or span >= T - eps:
+                    continue
+                return ("hang-after-close", f"{who}: its server finished ({r['end']}) {span} s after the connection was up (connect {r['connect_delay']} s) "
+                                            f"but the call ended with {res} after {el} s; exceptions escaping callbacks: {obs['escaped']}")
+            if r["end"] != "stall" and o["t1"] > r["start"] + r["connect_delay"] + span + eps:
+                return ("late-after-close", f"{who}: its server closed at t={r['start'] + r['connect_delay'] + span}, the call returned at t={o['t1']}")
+            i = data.find(CRLF)
+            want = want_of(data, case["dt"] if r["op"] == "get" else True)
+            v = judge_one(who, res, want, len(data) - i - 2 if i >= 0 else 0)
+            if v is None and res[0] == "err" and r["cls"] == "page" and r["end"] == "close" and want is not None:
+                # a complete well-formed page, closed cleanly, within cap and timeout: there is no problem an exception could name
+                v = ("error-without-cause", f"{who}: its server sent a complete well-formed response ({len(data)} bytes, status {want[0]}) and closed cleanly, the call raised {res[1]}")
+            if v:
+                others = "; ".join(f"call {k + 1} ended {p['res'][0]} at t={p['t1']}" for k, p in enumerate(obs["calls"]) if k != j)
+                return (v[0], v[1] + f" - only {o['delivered']} of the {len(data)} bytes of its stream had arrived when its connection was closed at t={o['t_close']} "
+                                     f"(the server would have closed at t={r['start'] + r['connect_delay'] + span}); {others}")
+        return None
+
+    def key(self, case, obs):
+        calls = obs["calls"]
+        ends = sorted((o["t1"] if o["t1"] is not None else 1e9, j) for j, o in enumerate(calls))
+        # is some call still in the middle of its stream when another call ends?
+        mid = False
+        for j, o in enumerate(calls):
+            for k, p in enumerate(calls):
+                if j != k and p["t1"] is not None and o["t_up"] is not None and o["t1"] is not None and o["t_up"] < p["t1"] < o["t1"]:
+                    mid = True
+        kinds = "+".join(sorted(o["res"][0] for o in calls))
+        ups = sorted((o["t_up"] if o["t_up"] is not None else 1e9, j) for j, o in enumerate(calls))
+        return (f"n={len(calls)} {'one-ends-while-another-receives' if mid else 'disjoint'} "
+                f"first-to-end={'earliest-connected' if ends[0][1] == ups[0][1] else 'later-connected'} -> {kinds}")
+
+
+# ----------------------------------------------------------------------------
 # live: real TLS on loopback, real time
 # ----------------------------------------------------------------------------
 class Live(Family):
@@ -745,4 +984,139 @@ class Live(Family):
         return f"{case['kind']} {case['op']} tofu={case['tofu']} -> {obs['res'][0]}"
 
 
-FAMILIES = [Proto(), Session(), Live()]
+class LiveOverlap(Family):
+    """real TLS on loopback, real time: ONE GeminiClient, two or three calls in flight at once, each against its own scripted
+    server connection (a page that takes a while; a long page sent in pieces with pauses; a reset in the body; a stall).
+    Every call gets exactly what ITS server sent, promptly; a stalling server is cut off at the timeout."""
+    realtime = True     # runs on the wall clock (sockets, threads): a failure is re-run once before it counts (core.run_family)
+    name = "liveoverlap"
+    quick_n = 8
+    thorough_n = 240
+    parallel = True       # ports are bound per process in setup()
+    TIMEOUT = 2.0
+
+    def setup(self):
+        from ..sim import client_tlspeer as T
+
+        self.w = T.world()
+
+    def gen(self, rng: random.Random, n: int):
+        fast = {"at": 0.0, "op": "get", "kind": "page", "wait": 0.3, "sizes": [12], "gaps": [], "meta": "text/gemini", "seed": 1}
+        slow = {"at": 0.1, "op": "get", "kind": "page", "wait": 0.0, "sizes": [600, 700], "gaps": [0.8], "meta": "text/gemini", "seed": 2}
+        fixed = [
+            {"tofu": False, "calls": [fast, slow]},                                    # the earlier call ends while the later one is in the middle of its body
+            {"tofu": True, "calls": [dict(slow, at=0.0, meta="application/octet-stream"), dict(fast, at=0.1, wait=0.2)]},   # the later call ends first
+            {"tofu": False, "calls": [dict(fast, op="upload"), dict(slow, sizes=[200000, 200000], gaps=[0.5]), dict(fast, at=0.45, wait=0.1, seed=3)]},
+        ]
+        cnt = 0
+        for c in self.share(fixed):
+            cnt += 1
+            yield c
+        for _ in range(max(0, n - cnt)):
+            k = rng.choice([2, 2, 3])
+            calls = []
+            for j in range(k):
+                pieces = rng.choice([1, 2, 2, 3])
+                calls.append({"at": [0.0, rng.choice([0.0, 0.05, 0.1, 0.2]), rng.choice([0.4, 0.5])][j], "op": rng.choice(["get", "get", "upload"]),
+                              "kind": rng.choice(["page", "page", "page", "page", "reset", "stall", "non2x"]), "wait": rng.choice([0.0, 0.1, 0.2, 0.3]),
+                              "sizes": [rng.choice([1, 100, 5000, 70000]) for _ in range(pieces)], "gaps": [rng.choice([0.05, 0.2, 0.4]) for _ in range(pieces - 1)],
+                              "meta": rng.choice(["text/gemini", "text/plain; charset=us-ascii", "application/octet-stream"]), "seed": rng.randrange(10 ** 6)})
+            yield {"tofu": rng.random() < 0.4, "calls": calls}
+
+    @staticmethod
+    def plan(call):
+        """(complete byte stream of this call's server, steps of the scripted peer, how the server ends)"""
+        rnd = random.Random(call["seed"])
+        unit = bytes(rnd.randrange(32, 127) for _ in range(997))
+        steps = [["read_request", 2.0]]
+        if call["wait"]:
+            steps.append(["sleep", call["wait"]])
+        if call["kind"] == "non2x":
+            data = b"51 Not found\r\n"
+            return data, steps + [["send", data, "force"], ["read_eof", 3.0], ["close"]], "close"
+        head = b"20 " + call["meta"].encode() + CRLF
+        data = bytearray(head)
+        for i, sz in enumerate(call["sizes"]):
+            piece = (unit * (sz // len(unit) + 1))[:sz]
+            steps.append(["send", (head if i == 0 else b"") + piece, "force"])
+            data += piece
+            if i < len(call["gaps"]):
+                steps.append(["sleep", call["gaps"][i]])
+        fin = {"page": "close", "reset": "reset", "stall": "stall"}[call["kind"]]
+        steps += {"close": [["close"]], "reset": [["reset"]], "stall": [["sleep", LiveOverlap.TIMEOUT + 0.8], ["close"]]}[fin]
+        return bytes(data), steps, fin
+
+    def impl(self, case):
+        from nauyaca.client.session import GeminiClient
+
+        peers = self.w["peers"]
+        plans = [self.plan(c) for c in case["calls"]]
+        # calls 1 and 2 talk to different servers; a third call goes to the first server again, well after call 1 has connected
+        for j, (_, steps, _) in enumerate(plans):
+            peers[j % 2].push("ec", steps)
+        tmp = tempfile.mkdtemp(prefix="nv-")
+
+        async def one(c, call, j):
+            if call["at"]:
+                await asyncio.sleep(call["at"])
+            url = f"gemini://127.0.0.1:{peers[j % 2].port}/c{j}"
+            t0 = time.monotonic()
+            try:
+                if call["op"] == "get":
+                    r = await c.get(url, follow_redirects=False)
+                else:
+                    r = await c.upload(url, b"payload", token="t")
+                res = ["resp", r.status, (r.meta or "").encode("utf-8", "surrogatepass").hex(), canon_body(r.body)]
+            except TimeoutError:
+                res = ["timeout"]
+            except Exception as e:  # noqa: BLE001
+                res = ["err", type(e).__name__, str(e)[:80]]
+            return {"res": res, "elapsed": round(time.monotonic() - t0, 3)}
+
+        async def go():
+            asyncio.get_running_loop().set_exception_handler(lambda loop, ctx: None)
+            c = GeminiClient(timeout=self.TIMEOUT, trust_on_first_use=case["tofu"], tofu_db_path=Path(tmp) / "t.db" if case["tofu"] else None)
+            return await asyncio.gather(*(one(c, call, j) for j, call in enumerate(case["calls"])))
+
+        try:
+            calls = asyncio.run(go())
+            for p in peers:
+                p.take_log(timeout=15.0)
+        finally:
+            for p in peers:
+                p.clear()
+            shutil.rmtree(tmp, ignore_errors=True)
+        return {"calls": calls}
+
+    def oracle(self, case, obs):
+        n = len(case["calls"])
+        flight = "; ".join(f"call {j + 1} {c['op']} from {c['at']} s ({c['kind']})" for j, c in enumerate(case["calls"]))
+        for j, (call, o) in enumerate(zip(case["calls"], obs["calls"])):
+            who = f"call {j + 1} of {n} in flight on one GeminiClient over loopback TLS ({flight})"
+            data, _, fin = self.plan(call)
+            res, el = o["res"], o["elapsed"]
+            span = call["wait"] + sum(call["gaps"]) if call["kind"] != "non2x" else call["wait"]
+            if el > self.TIMEOUT * 2 + 1.0:
+                return ("no-timeout-cutoff", f"{who}: took {el} s with timeout {self.TIMEOUT} s")
+            if fin != "stall" and (res[0] == "timeout" or el > max(self.TIMEOUT - 0.4, span + 1.0)):
+                return ("hang-after-close", f"{who}: its server finished ({fin}) after about {span} s but the call ended with {res} after {el} s (timeout {self.TIMEOUT} s)")
+            if fin == "stall" and res[0] == "resp":
+                return ("stall-not-timeout", f"{who}: its server sent {len(data)} bytes and then kept the connection open without finishing, the call returned {res[:2]} after {el} s")
+            if fin == "reset":
+                continue            # a reset may or may not overtake the data already sent: a response or an error, C13 proto/live judge it
+            i = data.find(CRLF)
+            want = want_of(data, True)
+            v = judge_one(who, res, want, len(data) - i - 2)
+            if v is None and res[0] == "err" and fin == "close" and want is not None:
+                # a complete well-formed response, closed cleanly, within cap and timeout: there is no problem an exception could name
+                v = ("error-without-cause", f"{who}: its server sent a complete well-formed response ({len(data)} bytes, status {want[0]}) and closed cleanly, the call raised {res[1]}: {res[2]}")
+            if v:
+                others = "; ".join(f"call {k + 1} ended {p['res'][0]} after {p['elapsed']} s" for k, p in enumerate(obs["calls"]) if k != j)
+                return (v[0], v[1] + f" (returned after {el} s; {others})")
+        return None
+
+    def key(self, case, obs):
+        return f"n={len(case['calls'])} tofu={case['tofu']} " + "+".join(sorted(f"{c['kind']}->{o['res'][0]}" for c, o in zip(case["calls"], obs["calls"])))
+
+
+FAMILIES = [Proto(), Session(), Overlap(), Live(), LiveOverlap()]
